@@ -220,7 +220,8 @@ class _Philox:
             kw = [0, 0]
         else:
             kw = [self.key % 2**64, self.key >> 64]
-        return {"bit_generator": "Philox", "state": {"counter": np.array([(self.counter >> (64 * i)) % 2**64 for i in range(4)], dtype=np.uint64), "key": np.array(kw, dtype=np.uint64)},
+        self._handed_out_key = np.array(kw, dtype=np.uint64)
+        return {"bit_generator": "Philox", "state": {"counter": np.array([(self.counter >> (64 * i)) % 2**64 for i in range(4)], dtype=np.uint64), "key": self._handed_out_key},
                 "buffer": np.zeros(4, dtype=np.uint64), "buffer_pos": self.pos, "has_uint32": self.h, "uinteger": 0 if self.u is None else 12345, "_u": self.u, "_buf": self.buf,
                 "_key": self.key}
 
@@ -228,7 +229,8 @@ class _Philox:
     def state(self, st):
         k = [int(v) for v in st["state"]["key"]]
         newkey = k[0] + (k[1] << 64)
-        if not (isinstance(st.get("_key"), tuple) and newkey == 0):
+        # an unseeded generator's key stays "OS entropy" only if the very key array handed out by the getter is written back
+        if not (isinstance(self.key, tuple) and st["state"]["key"] is getattr(self, "_handed_out_key", None)):
             self.key = newkey
         self.counter = sum(int(v) << (64 * i) for i, v in enumerate(st["state"]["counter"]))
         self.pos = int(st["buffer_pos"])
